@@ -1,4 +1,5 @@
 import RtcVerif.Model.C07
+import RtcVerif.Model.C07Code
 /-! Line-protocol driver for the C07 models (control tree, index allocation, parameter routing). -/
 open Lean RtcVerif RtcVerif.Wire RtcVerif.C07
 
@@ -44,6 +45,35 @@ def allCtl (full : Bool) (c : TreeCfg) : List Ctl → Nat → Option (List (List
     let (rest, c2) ← allCtl full c vs c1
     pure (ix :: rest, c2)
 
+/-- the same with the tree variables computed by the CODE-level reference definitions
+    (`Model/C07Code.lean`: base member loop around `ControlTreeMixin.discretize_control`) on the
+    dictionary `brs` of the real run, in its dictionary order -/
+def ctlIdxCode (brs : List (List Nat × List Nat)) (c : TreeCfg) (v : Ctl) (count0 : Nat) :
+    Option (List (List Nat) × Nat) :=
+  match v.pol with
+  | "tree" =>
+    let r := ctrlLoopRef (discretizeControlRef brs c.t0 c.bts v.ts) stopArr (List.range c.E) (count0, [], [])
+    some (r.2.2, r.1)
+  | _ => ctlIdx true c v count0
+
+def allCtlCode (brs : List (List Nat × List Nat)) (c : TreeCfg) : List Ctl → Nat → Option (List (List (List Nat)) × Nat)
+  | [], count => some ([], count)
+  | v :: vs, count => do
+    let (ix, c1) ← ctlIdxCode brs c v count
+    let (rest, c2) ← allCtlCode brs c vs c1
+    pure (ix :: rest, c2)
+
+def brOfJson (j : Json) : Option (List Nat × List Nat) := do
+  let l ← j.getArr?.toOption
+  let p ← asNatList (← l[0]?)
+  let ms ← asNatList (← l[1]?)
+  pure (p.reverse, ms)
+
+/-- `ChainOf` of `Proofs/C07Code.lean`, decided: the entries of the dictionary that contain `m` are
+    `m`'s branches of the model in increasing depth -/
+def chainOk (c : TreeCfg) (brs : List (List Nat × List Nat)) (m : Nat) : Bool :=
+  (brs.filter (fun br => br.2.contains m)).map (·.1) == (List.range (c.bts.length + 1)).map (c.path m)
+
 def handle (j : Json) : Option Json := do
   let op ← getStr j "op"
   match op with
@@ -71,6 +101,24 @@ def handle (j : Json) : Option Json := do
           ("branches", Json.arr br.toArray),
           ("idx", Json.arr (ix.map (fun perVar => Json.arr (perVar.map natsJ).toArray)).toArray),
           ("count", Json.num (Int.ofNat count))])
+  | "codeloop" =>
+      let E ← getNat j "E"
+      let k := (getNat j "k").getD 2
+      let t0 := (getRat j "t0").getD 0
+      let bts := (getRatList j "bts").getD []
+      let tabs ← match getArr j "dist" with
+        | none => some []
+        | some l => l.mapM asRatMat
+      let ctl ← (← getArr j "ctrl").mapM ctlOfJson
+      let brs ← (← getArr j "brs").mapM brOfJson
+      let cfg : TreeCfg := ⟨distOfTables tabs, k, E, t0, bts⟩
+      match allCtlCode brs cfg ctl 0 with
+      | none => pure (Json.str "raise")
+      | some (ix, count) =>
+        pure (Json.mkObj [
+          ("idx", Json.arr (ix.map (fun perVar => Json.arr (perVar.map natsJ).toArray)).toArray),
+          ("count", Json.num (Int.ofNat count)),
+          ("chain", Json.bool ((List.range E).all (chainOk cfg brs)))])
   | "route" =>
       -- parameter classification / routing: P = E x np matrix, dyn flags
       let P ← getRatMat j "P"
